@@ -5,6 +5,7 @@ import (
 	"fmt"
 	"io"
 	"math"
+	"reflect"
 	"strconv"
 	"strings"
 	"sync"
@@ -359,6 +360,9 @@ type SOp struct {
 }
 
 func encScalar(v any) string {
+	if rv := reflect.ValueOf(v); rv.Kind() == reflect.Ptr && rv.IsNil() {
+		return "n" // a nil pointer of any type is a nil value
+	}
 	switch x := v.(type) {
 	case nil:
 		return "n"
